@@ -250,8 +250,8 @@ def instantiate (v : Variant) (now : Nat) (funds : List Coin) (limit : Nat) (wha
     ofBool (admins.all validAddr) .invalid
     ofBool (!decide (limit < num0)) .limit
     let (ms, cnt, num) ← instStages whale stages.length 0 members [] (fun _ => 0) 0
-    -- plain keeps `num_members = Σ len` (= Σ stored, lists are duplicate-free); flex recounts
-    pure { stages := stages, members := ms, counts := cnt, num := num, limit := limit, whale := whale,
+    -- plain keeps `num_members = Σ len` of the deduplicated lists; flex recounts the entries actually saved
+    pure { stages := stages, members := ms, counts := cnt, num := if v == .plain then num0 else num, limit := limit, whale := whale,
            roots := [], admins := admins, mutable := mutable }
 
 /-! ## execute -/
